@@ -702,7 +702,7 @@ def p7_closed_check(ctx):
                         continue
                     if any((e2.src, e2.dst) in open_edges for e2 in b.succ[bb]):
                         rs = [(c, ret_origin(b, d)) for c, d, rb in ret_classes(b, e.dst, lambda x: x.kind == "unwind")]
-                        good = bool(rs) and all(c == "err" and o is not None and "Closed" in origin_str(o) for c, o in rs)
+                        good = bool(rs) and all(c == "err" and returns_closed_error(b, o) for c, o in rs)
                         r.add(f, "closed ⇒ Err(Closed)", good, where(b, bb))
     # Drop of Bitcask closes
     db = [b for b in shipped_bodies(prog) if b.name == "<storage::bitcask::Bitcask as std::ops::Drop>::drop"]
@@ -764,7 +764,7 @@ def p18_handle_delegation(ctx):
         for c, d, rb in rets:
             o = ret_origin(b, d)
             if c == "err":
-                if o is not None and "Closed" in origin_str(o):
+                if returns_closed_error(b, o):
                     continue
                 # `writer.delete(key)?`: the error of the delegation itself, passed on
                 if from_site(o) and not origin_mentions(o, lambda x: x[0] == "call" and x[3] != site and x[1] not in ("std::ops::FromResidual::from_residual", "std::ops::Try::branch")):
@@ -815,7 +815,7 @@ def p6b_pool_filled(ctx):
     fam = prog.family("storage::bitcask::Bitcask::open")
     b = None
     for x in fam:
-        if calls_in([x], "crossbeam_queue::ArrayQueue::push", "ArrayQueue::push"):
+        if calls_in([x], "crossbeam_queue::ArrayQueue::push", "ArrayQueue::push") and b is None:
             b = x
     f = "storage::bitcask::Bitcask::open"
     if b is None:
